@@ -8,6 +8,7 @@ import Dawgs.Model.GraphGen
 import Dawgs.Model.C01
 import Dawgs.Model.C01S2
 import Dawgs.Model.C01Chain
+import Dawgs.Model.C01Count
 /-! C01 semantic-search driver (suite `c01sem`, also used by C02).
 
 Input: `sem <gseed> <nrandom> <exN> <exE> <kindmap> <params> <cypher sexp> <sql sexp>` — the parsed Cypher model and the REAL emitted
@@ -392,7 +393,9 @@ def tieStep (_ : Unit) (ts : List String) : Unit × String :=
             | some s2 => some ("S2b", s2.toCy == q, s2.wf)
             | none => match C01.ofCyChain q with
               | some ch => some ("S2c", ch.toCy == q, ch.wf)
-              | none => none
+              | none => match C01.ofCyCount1 q with
+                | some c1 => some ("S1c", c1.toCy == q, true)
+                | none => none
         match stage with
         | none => ((), "outside-fragment")
         | some (stg, reading, wf) =>
@@ -400,7 +403,7 @@ def tieStep (_ : Unit) (ts : List String) : Unit × String :=
           if !wf then ((), "outside-fragment not-well-formed-for-" ++ stg) else
           -- the hop's join order is the translator's choice (selectivity heuristic over its Go tree): the real statement must be the
           -- model statement for ONE of the two orders; `dir` records whether it is the order the model's approximation picks
-          let cands := [C01.tr3F (fun _ => false) (fun _ => false) km q, C01.tr3F (fun _ => true) (fun _ => true) km q].filterMap id
+          let cands := [C01.tr4F (fun _ => false) (fun _ => false) true km q, C01.tr4F (fun _ => true) (fun _ => true) true km q].filterMap id
           match cands with
           | [] => ((), "tie-differs model-translator-rejects-a-translated-query")
           | (st0, ps) :: _ =>
@@ -414,7 +417,7 @@ def tieStep (_ : Unit) (ts : List String) : Unit × String :=
                 let graphs := graphsFor gseed nrandom exN exE
                 let ordered := !q.ret.orderBy.isEmpty
                 -- the hypothesis of the stage's theorem: `GraphOK` for S1, `GraphOK2` for S2b
-                let hypB := fun (g : Graph) => if stg == "S1" then C01.graphOKb km g else C01.graphOK2b km g
+                let hypB := fun (g : Graph) => if stg == "S1" || stg == "S1c" then C01.graphOKb km g else C01.graphOK2b km g
                 let inHyp := graphs.filter hypB
                 let outHyp := graphs.filter (fun g => !hypB g)
                 let outsIn := inHyp.map (compareOn km [] q s ordered [])
